@@ -127,6 +127,7 @@ def run(ctx):
         sel = combos if (ctx.tier != "quick" or kind == "full") else rng.sample(combos, len(combos) // 3)
         jobs += [(kind, sel[i:i + 40]) for i in range(0, len(sel), 40)]
     counts = {}
+    crashes = {}
     for out in par.pmap(_run_chunk, jobs, chunk=1):
         for c, kind, outcome in out:
             ctx.evaluations += 1
@@ -139,9 +140,11 @@ def run(ctx):
                 if c["predict"] not in ("either", cls):
                     ctx.note_drift("gate model predicted '%s' but `%s` on dataset '%s' gave '%s'" % (c["predict"], " ".join(c["argv"]), kind, cls))
                 continue
+            crashes.setdefault(cls, []).append([c["m"], c["x"], c["t"], c["v"], kind])
             ctx.diverge(cls, {"kind": "combo", "argv": c["argv"], "dataset": kind, "outcome": outcome},
                         detail="`verif A B %s` on dataset '%s' -> %s" % (" ".join(c["argv"]), kind, outcome))
     ctx.extra["outcomes"] = counts
+    ctx.extra["crash_combinations"] = {k: v[:300] for k, v in crashes.items()}
     ctx.sample({"argv": combos[0]["argv"], "dataset": "full"})
     ctx.sample({"argv": combos[-1]["argv"], "dataset": "missing-slice"})
     ctx.exhaustive = ctx.tier != "quick"
